@@ -378,3 +378,46 @@ def exc_class(e):
     import re
     msg = re.sub(r"'[^']*'|\"[^\"]*\"", "*", str(e).split("||")[0].split("\n")[0].strip())
     return "raises:%s:%s" % (type(e).__name__, msg[:90])
+
+
+# --------------------------------------------------------------------------------------------- excluded collisions
+def _py_class(v):
+    """values that Python's == identifies although they differ in kind (excluded by C01: set semantics)"""
+    k = v[0]
+    if k in ("bool", "int"):
+        return ("num", float(v[1]) if abs(v[1]) < 2 ** 53 else v[1])
+    if k == "float":
+        return ("num", float(v[1]))
+    if k in ("QualifiedName", "Identifier"):
+        return ("uri", v[1])
+    return v
+
+
+def collision_keys(s):
+    keys = set()
+    for b, recs in s.items():
+        for (t, i, attrs), n in recs:
+            groups = {}
+            for (a, v), m in attrs:
+                groups.setdefault((a, _py_class(v)), set()).add(v)
+            for (a, pc), vs in groups.items():
+                if len(vs) > 1:
+                    keys.add((b, t, i, a, pc))
+    return keys
+
+
+def drop_collisions(s, keys=None):
+    """strict content with, per record and attribute, every group of values that collide under Python's ==
+    (1/True/1.0, Identifier/QualifiedName of one URI) removed - the case C01 excludes.  `keys`: the collision
+    groups to remove (computed over both sides of a comparison)"""
+    if keys is None:
+        keys = collision_keys(s)
+    out = {}
+    for b, recs in s.items():
+        nrecs = Counter()
+        for (t, i, attrs), n in recs:
+            # (a python set holds an attribute-value pair once: multiplicities inside a record are not content)
+            kept = [((a, v), 1) for (a, v), m in attrs if (b, t, i, a, _py_class(v)) not in keys]
+            nrecs[(t, i, tuple(sorted(kept, key=repr)))] += n
+        out[b] = tuple(sorted(nrecs.items(), key=repr))
+    return out
